@@ -19,6 +19,9 @@ type Mutex struct {
 }
 
 func (m *Mutex) Lock() {
+	if vrt.Observing() {
+		return
+	}
 	if vrt.Active() == nil {
 		m.real.Lock()
 		m.locked = true
@@ -29,6 +32,9 @@ func (m *Mutex) Lock() {
 }
 
 func (m *Mutex) TryLock() bool {
+	if vrt.Observing() {
+		return !m.locked
+	}
 	if vrt.Active() == nil {
 		if m.real.TryLock() {
 			m.locked = true
@@ -45,6 +51,9 @@ func (m *Mutex) TryLock() bool {
 }
 
 func (m *Mutex) Unlock() {
+	if vrt.Observing() {
+		return
+	}
 	if vrt.Active() == nil {
 		m.locked = false
 		m.real.Unlock()
@@ -64,6 +73,9 @@ type RWMutex struct {
 }
 
 func (m *RWMutex) RLock() {
+	if vrt.Observing() {
+		return
+	}
 	if vrt.Active() == nil {
 		m.real.RLock()
 		return
@@ -73,6 +85,9 @@ func (m *RWMutex) RLock() {
 }
 
 func (m *RWMutex) RUnlock() {
+	if vrt.Observing() {
+		return
+	}
 	if vrt.Active() == nil {
 		m.real.RUnlock()
 		return
@@ -81,6 +96,9 @@ func (m *RWMutex) RUnlock() {
 }
 
 func (m *RWMutex) Lock() {
+	if vrt.Observing() {
+		return
+	}
 	if vrt.Active() == nil {
 		m.real.Lock()
 		return
@@ -102,6 +120,9 @@ func (m *RWMutex) Lock() {
 }
 
 func (m *RWMutex) Unlock() {
+	if vrt.Observing() {
+		return
+	}
 	if vrt.Active() == nil {
 		m.real.Unlock()
 		return
@@ -144,6 +165,9 @@ func (w *WaitGroup) Add(d int) {
 }
 func (w *WaitGroup) Done() { w.Add(-1) }
 func (w *WaitGroup) Wait() {
+	if vrt.Observing() {
+		return
+	}
 	if vrt.Active() == nil {
 		w.real.Wait()
 		return
@@ -158,7 +182,7 @@ type Map struct {
 }
 
 func point(kind string) {
-	if vrt.Active() != nil {
+	if vrt.Active() != nil && !vrt.Observing() {
 		vrt.WaitAt(2, kind, nil)
 	}
 }
